@@ -365,8 +365,8 @@ theorem banner_invariant_partial (na : Bool) (gs : List Chg) (st : St SimSt) (q 
   · cases hs : specOk gs with
     | true => exact ⟨fun _ => (h0.2.2.1 hs).1, fun _ => (h.2.2.1 hs).1⟩
     | false =>
-      obtain ⟨ci, R, out, e1, _⟩ := h.2.2.2 hs
-      obtain ⟨ci0, R0, out0, e0, _⟩ := h0.2.2.2 hs
+      obtain ⟨ci, R, out, e1, _⟩ := h.2.2.2.1 hs
+      obtain ⟨ci0, R0, out0, e0, _⟩ := h0.2.2.2.1 hs
       constructor
       · intro hk; rw [e1] at hk; cases hk
       · intro hk; rw [e0] at hk; cases hk
@@ -374,14 +374,14 @@ theorem banner_invariant_partial (na : Bool) (gs : List Chg) (st : St SimSt) (q 
     cases hs : specOk gs with
     | true => exact (h.2.2.1 hs).2
     | false =>
-      obtain ⟨ci, R, out, e1, _⟩ := h.2.2.2 hs
+      obtain ⟨ci, R, out, e1, _⟩ := h.2.2.2.1 hs
       rw [e1] at hok; cases hok
   · intro hne
     cases hs : specOk gs with
     | true => exact absurd (h.2.2.1 hs).1 hne
     | false =>
-      obtain ⟨ci, R, out, e1, e2, e3⟩ := h.2.2.2 hs
-      obtain ⟨ci0, R0, out0, f1, f2, f3⟩ := h0.2.2.2 hs
+      obtain ⟨ci, R, out, e1, e2, e3⟩ := h.2.2.2.1 hs
+      obtain ⟨ci0, R0, out0, f1, f2, f3⟩ := h0.2.2.2.1 hs
       rw [e2] at f2
       cases f2
       exact ⟨ci, R, R0, e1, f1, by rw [e3, f3]⟩
